@@ -819,19 +819,22 @@ fn gen_scratch(_prop: &str, rng: &mut Rng, run: u64) -> (Config, Vec<Op>) {
                 _ => {
                     // a family of words of one length that share a long prefix and differ in the tail,
                     // compared one after the other (caches keyed on a truncated or hashed word)
-                    let base: Vec<char> = synth_word(rng, alph, 18, 40).chars().collect();
-                    let al: Vec<char> = alph.chars().collect();
-                    let tail = rng.range(1, 4).min(base.len());
+                    // (the tail brings characters the prefix does not have, or the words would be equal as sets)
+                    let pre_alph = *rng.pick(&["a", "ab", "0", "aeb", alph]);
+                    let tail_alph = *rng.pick(&["xyz12345678", "mnopqrstuvw", alph]);
+                    let base = synth_word(rng, pre_alph, 16, 40);
+                    let tail = rng.range(1, 5);
                     let fin = rng.chance(1, 2);
+                    let mut prev_tail = String::new();
                     for _ in 0..rng.range(2, 4) {
-                        let mut r = base.clone();
-                        let mut q = base.clone();
-                        for k in 0..tail {
-                            let i = base.len() - 1 - k;
-                            r[i] = *rng.pick(&al);
-                            q[i] = *rng.pick(&al);
-                        }
-                        let (r, q): (String, String) = (r.into_iter().collect(), q.into_iter().collect());
+                        let tq = synth_word(rng, tail_alph, tail, tail);
+                        let tr = match rng.below(3) {
+                            0 => tq.clone(),
+                            1 if !prev_tail.is_empty() => prev_tail.clone(),
+                            _ => synth_word(rng, tail_alph, tail, tail),
+                        };
+                        prev_tail = tq.clone();
+                        let (r, q) = (format!("{}{}", base, tr), format!("{}{}", base, tq));
                         plan.push(if rng.chance(1, 2) { Op::JCheck { t, r, q, fin } } else { Op::WMatch { t, r, q, fin } });
                     }
                 }
